@@ -52,7 +52,7 @@ def _scenario(task):
     kind, args = task
     try:
         from . import scenarios as sc, solve as sv
-        fn = {'program': sv.run_program, 'resolve': sc.resolve, 'resolve_none': sc.resolve_after_none, 'resolve_replaced': sc.resolve_replaced, 'unused_function': sc.unused_function, 'partition_real': sc.partition_realization, 'dimred': sc.dimension_reduction, 'dimred_fallback': sc.dimension_reduction_fallback,
+        fn = {'program': sv.run_program, 'resolve': sc.resolve, 'resolve_none': sc.resolve_after_none, 'resolve_replaced': sc.resolve_replaced, 'unused_function': sc.unused_function, 'partition_real': sc.partition_realization, 'dual_tables_direct': sc.dual_tables_direct, 'dimred': sc.dimension_reduction, 'dimred_fallback': sc.dimension_reduction_fallback,
               'history': sc.history, 'verbosity': sc.verbosity, 'no_value': sc.no_value, 'invalid_options': sc.invalid_options,
               'dual_tables': sc.dual_tables, 'partitions': sc.partitions, 'backends': sc.backends, 'mosek_many_rows': sc.mosek_many_rows,
               'mosek_no_value': sc.mosek_no_value, 'partition_resolve': sc.partition_resolve, 'partition_dropped_handle': sc.partition_dropped_handle,
